@@ -179,7 +179,7 @@ CLAIMED = {
         technique="Coq proof (per-strategy state-transition theorems, attribute-union theorem) + exhaustive small-scope differential correspondence",
         design="4 (C05)"),
     "C03": dict(
-        text="Coq theorems (Properties/C03.v, 15 statements, closed under the global context) about the model of the GTF "
+        text="Coq theorems (Properties/C03.v, 16 statements, closed under the global context) about the model of the GTF "
              "importer: no line is ever its own parent or child (all lines, keys, configurations); an ordinary line gets exactly "
              "(transcript,line,1), (gene,line,2), (gene,transcript,1), an explicit transcript line exactly (gene,transcript,1), "
              "an explicit gene line nothing; the derived extent is exactly min start .. max end of the related subfeatures on "
@@ -187,15 +187,19 @@ CLAIMED = {
              "keyed by their transcript/gene id (retrievable by id); a line already stored under that id stays the single "
              "feature; _update_relations end to end (C03_inference_appends / _transcript_inferred / _gene_inferred / "
              "_nothing_else_derived): exactly the derived rows are appended, one per (transcript, gene) pair and gene, each "
-             "retrievable by its id with the extent query's answer, ids stay unique, relations and counters untouched. The "
+             "retrievable by its id with the extent query's answer, ids stay unique, relations and counters untouched; and THE WHOLE "
+             "IMPORT FROM THE INPUT LINES (C03_import_end_to_end, files of ordinary lines carrying both ids, inference on): every "
+             "line stored once in order under its generated key, then for every transcript / gene id owning a subfeature line "
+             "exactly one derived feature retrievable by that id, spanning exactly the declarative min start .. max end of its "
+             "subfeature lines (GtfSpec.expected_extent), keys unique. The "
              "correspondence checks the property directly on the implementation's tables for ~260 generated annotations per "
              "quick run (shuffled, explicit lines, 4 flag combinations, custom keys/subfeature, text and Feature input) besides "
              "comparing all four tables with the model inside Coq.",
         note="Trusted: Coq kernel + vm_compute; Model/Import.v (GTF part: relation triples, the DISTINCT/ORDER BY pair query, "
              "MIN/MAX with bare columns, temp-file round trip as identity on tab/newline-free fields, merge on collision) is "
              "hand-written and tied by the correspondence only. Domain: lines carry both ids, one seqid/strand per transcript "
-             "and gene, integer coordinates, gene ids distinct from transcript ids. The end-to-end theorems take the "
-             "populated state as given and assume the derived ids new (their pairwise distinctness is C03_derived_ids_distinct; component theorems + correspondence).",
+             "and gene, integer coordinates, gene ids distinct from transcript ids. C03_import_end_to_end covers files "
+             "without explicit gene/transcript lines and without gene-id-only lines; those are covered by the per-state theorems (component theorems + correspondence).",
         technique="Coq proof (relation-triple, min/max extent, flag and collision theorems on the importer model) + differential correspondence with a direct spec check",
         design="4 (C03)"),
     "C10": dict(
